@@ -326,7 +326,21 @@ pub fn call(oracle: &str, v: &Value) -> Value {
                 return verdict(matches!(&got, Err(m) if m == msg), obs, json!({"panicked": msg}), v, "range(a, b, 0)");
             }
             let (exp, n) = range_seq(a as i128, b as i128, c as i128, cap + 2);
-            let ok = matches!(&got, Ok(g) if g.iter().map(|x| *x as i128).collect::<Vec<_>>() == exp);
+            let mut ok = matches!(&got, Ok(g) if g.iter().map(|x| *x as i128).collect::<Vec<_>>() == exp);
+            // the other consumers of the iterator protocol: `collect()` (used by comprehensions; trusts size_hint) and size_hint itself
+            if ok && n <= 1000 {
+                let col = guarded(|| incan_stdlib::iter::range(a, b, c).collect::<Vec<i64>>());
+                let hint = guarded(|| { let mut it = incan_stdlib::iter::range(a, b, c); let h0 = it.size_hint(); let _ = it.next(); (h0, it.size_hint()) });
+                let (full, _) = range_seq(a as i128, b as i128, c as i128, 1001);
+                let col_ok = matches!(&col, Ok(g) if g.iter().map(|x| *x as i128).collect::<Vec<_>>() == full);
+                let hint_ok = matches!(&hint, Ok(((lo0, hi0), (lo1, hi1))) if *lo0 as i128 <= n && hi0.map_or(true, |h| h as i128 >= n)
+                    && *lo1 as i128 <= (n - 1).max(0) && hi1.map_or(true, |h| h as i128 >= (n - 1).max(0)));
+                if !col_ok || !hint_ok {
+                    ok = false;
+                    return verdict(false, json!({"collect": match &col { Ok(g) => json!(g), Err(m) => json!({"panicked": m}) }, "size_hint_before_and_after_one_next": match &hint { Ok(h) => json!([[h.0.0, h.0.1], [h.1.0, h.1.1]]), Err(m) => json!({"panicked": m}) }}),
+                                   json!({"collect": full.iter().map(|x| *x as i64).collect::<Vec<_>>(), "size_hint": "lower <= remaining <= upper"}), v, "range(a, b, c) consumed by collect(): same items, no other failure");
+                }
+            }
             verdict(ok, obs, json!({"first_items": exp.iter().map(|x| *x as i64).collect::<Vec<_>>(), "total_len": n.to_string()}), v, "range(a, b, c), first items and termination")
         }
         "core::policy" => policy(v),
